@@ -103,6 +103,8 @@ def gen_case(rng, size="small", allow_stacked=True, allow_multi=True):
         jobs[nm] = {"req": req, "targets": targets}
     nops = rng.randrange(6, 25 if size == "small" else 60)
     ops = []
+    late_running = rng.random() < 0.2        # out-of-order: RUNNING may be notified after a terminal status (C11 text: "regardless of the order")
+    overuse = rng.random() < 0.15            # du may report more than was reserved (150 % / 200 %)
     if contention:
         order = list(names)
         rng.shuffle(order)
@@ -115,11 +117,11 @@ def gen_case(rng, size="small", allow_stacked=True, allow_multi=True):
         else:
             st = rng.choice(["RUNNING", "RUNNING", "RUNNING", "COMPLETED", "COMPLETED", "COMPLETED", "FAILED", "CANCELLED",
                              "ROLLBACK", "RECOVERY", "FIREABLE" if rng.random() < 0.1 else "COMPLETED"])
-            ops.append(["N", j, st, rng.choice([0, 1, 2, 4, 4, "fail"])])
+            ops.append(["N", j, st, rng.choice([0, 1, 2, 4, 4, "fail"] + ([6, 8] if overuse else []))])
             if rng.random() < (0.35 if st in ("RUNNING", "FIREABLE") else 0.2):
                 ops.append(["N", j, st, rng.choice([0, 2, 4])])       # duplicated notification (also of non-terminal statuses)
     return {"f": "hist", "loop_seed": rng.randrange(1 << 30), "deps": deps, "jobs": jobs, "ops": ops,
-            "raw": rng.random() < 0.1, "drain": True}
+            "raw": rng.random() < 0.1, "drain": True, "late_running": late_running, "overuse": overuse}
 
 
 # ====================================================================================== driver (worker side)
@@ -396,11 +398,14 @@ class SchedDriver:
                     rec["skipped"] = "no allocation"
                 elif job in pending and not pending[job].done() and not raw:
                     rec["skipped"] = "request pending"
-                elif not raw and st == "RUNNING" and cur not in ("FIREABLE", "RUNNING"):
+                elif not raw and st == "RUNNING" and cur not in ("FIREABLE", "RUNNING") and not (
+                        case.get("late_running") and cur in TERMINAL):
                     rec["skipped"] = "RUNNING only from FIREABLE (or repeated while RUNNING)"
                 elif not raw and st == "FIREABLE" and cur != "FIREABLE":
                     rec["skipped"] = "FIREABLE only by scheduling (or repeated while FIREABLE)"
                 else:
+                    if st == "RUNNING" and cur in TERMINAL:
+                        rec["late"] = True               # out-of-order RUNNING after a terminal status
                     self.usage_q = op[3]
                     t = loop.create_task(sched.notify_status(job, Status[st]))
                     rec["_task"] = t
@@ -588,6 +593,7 @@ class Ledger:
                     self._alloc_reqs = dict((k, h) for k, h in e["reqs"])
                     self._alloc_job = e["job"]
             elif e["free"] is not None:
+                self.reserved[e["job"]] = {}          # released: whatever its later status, the job holds nothing any more
                 for c in e["free"]["seq"]:
                     if c["k"] == "du" and c["usage"] is not None:
                         mounts = {k: m for k, m, _, _, _ in c["hw"]["s"]}
@@ -631,6 +637,17 @@ def loc_class(case, name):
     """outer / inner (wrapped by one outer location) / shared-inner (wrapped by several)"""
     n = sum(1 for d in case["deps"] for l in d["locs"] if l.get("wraps") == name)
     return "outer" if n == 0 else ("inner" if n == 1 else "shared-inner")
+
+
+def input_class(obs):
+    """part of the finding signature: input classes outside the engine's normal lifecycle that the history contained"""
+    steps = obs.get("steps", []) if isinstance(obs, dict) else []
+    out = ""
+    if any(st.get("late") for st in steps):
+        out += "+late-running"
+    if any(st["op"][0] == "N" and st["skipped"] is None and isinstance(st["op"][3], int) and st["op"][3] > 4 for st in steps):
+        out += "+du-over-reservation"
+    return out
 
 
 def cap_vec(l):
@@ -693,7 +710,7 @@ class SchedProp(Prop):
 
     def signature(self, case, obs, clause):
         multi = any(t["n"] > 1 for j in case["jobs"].values() for t in j["targets"])
-        return f"{clause}/{'multi' if multi else 'single'}"
+        return f"{clause}{input_class(obs)}/{'multi' if multi else 'single'}"
 
     def shrink(self, case):
         ops = case["ops"]
